@@ -3,7 +3,8 @@
 (* reaction to a synchronising literal.  One line per case.                    *)
 EXTENDS ClientLit, Json
 
-Cmds == {"LOGIN", "SEARCHBODY", "CREATE", "RENAME", "LIST", "STATUS", "APPEND"}
+\* AUTHENTICATE: SASL PLAIN, which has an initial response - on the command line, or after an empty challenge
+Cmds == {"LOGIN", "SEARCHBODY", "CREATE", "RENAME", "LIST", "STATUS", "APPEND", "AUTHENTICATE"}
 Classes == {"plain", "space", "quote", "ctl", "bit8", "empty", "long", "longctl", "long8"}  \* long = 4097 octets
 \* 10, 4096, 4097 octets written with one call; split / bigsplit: 10 octets written as 3 + 7, 6016 octets as
 \* 16 + 6000 (the caller looks at errors only when it closes the literal)
@@ -19,8 +20,10 @@ GenInit == Init /\ case = [cmd |-> "none", class |-> "none", react |-> "none", s
 GenNext ==
   /\ phase = "idle" /\ case.cmd = "none"
   /\ \E cmd \in Cmds, react \in Reactions, stale \in BOOLEAN :
-       \E class \in (IF cmd = "APPEND" THEN AppendSizes ELSE Classes) :
-         /\ stale => (cmd # "LOGIN" /\ ~cfg.utf8)        \* nothing can have been enabled before the login
+       \E class \in (IF cmd = "APPEND" THEN AppendSizes ELSE IF cmd = "AUTHENTICATE" THEN {"plain"} ELSE Classes) :
+         /\ stale => (cmd \notin {"LOGIN", "AUTHENTICATE"} /\ ~cfg.utf8)
+         /\ cmd = "AUTHENTICATE" => (react = "grant" /\ ~cfg.utf8)
+         /\ cmd # "AUTHENTICATE" => ~cfg.saslir       \* SASL-IR matters to AUTHENTICATE only        \* nothing can have been enabled before the login
          /\ case' = [cmd |-> cmd, class |-> class, react |-> react, stale |-> stale]
          /\ PrintT(<<"T", ToJson([cfg |-> cfg, case |-> case'])>>)
   /\ phase' = "done" /\ UNCHANGED <<cfg, wrote, status, alive>>
